@@ -30,7 +30,7 @@ func init() {
 		},
 		Run:            c02Run,
 		Floor:          func(tier string) int { return 500 },
-		Rule:           "histories of 3..10 Run calls on one Model drawn from the alphabet {fresh inputs, same values again, the same tensor objects again, outputs of the previous Run fed back (recurrent state round trip / any shape-compatible output), another batch size, a call failing validation (missing input, wrong rank), a call failing inside a node (proxy-injected error at a random node and phase), proxy attached or not}; models: the four loadable sample models and generated programs in which initializers are randomly promoted to caller inputs so that caller tensors and weights both play the special roles (Conv bias, initial_h/initial_c, ArgMax/Reduce operand, Expand/Concat single input, Reshape/Squeeze/Unsqueeze/Flatten operands, MatMul operands, PRelu slope, Gather/Slice parameters, Constant/Scaler/LinearRegressor attribute tensors). After every call: every tensor the caller ever passed has an unchanged deep fingerprint (dtype, shape, strides, elements, backing), every weight has an unchanged fingerprint, and the outcome equals bit for bit (or error for error) the outcome of a freshly loaded Model given deep copies of the same inputs. Non-trivial = history with at least one re-use, feedback, failing call or batch change after a successful Run; distinct = (model structure, action sequence).",
+		Rule:           "histories of 3..10 Run calls on one Model drawn from the alphabet {fresh inputs, same values again, the same tensor objects again, outputs of the previous Run fed back (recurrent state round trip / any shape-compatible output), another batch size, a call failing validation (missing input, wrong rank), a call failing inside a node (proxy-injected error at a random node and phase; a caller tensor of another shape that passes the signature check through symbolic dimensions), proxy attached or not}; models: the four loadable sample models and generated programs in which initializers are randomly promoted to caller inputs so that caller tensors and weights both play the special roles (Conv bias, initial_h/initial_c, ArgMax/Reduce operand, Expand/Concat single input, Reshape/Squeeze/Unsqueeze/Flatten operands, MatMul operands, PRelu slope, Gather/Slice parameters, Constant/Scaler/LinearRegressor attribute tensors). After every call: every tensor the caller ever passed has an unchanged deep fingerprint (dtype, shape, strides, elements, backing), every weight has an unchanged fingerprint, and the outcome equals bit for bit (or error for error) the outcome of a freshly loaded Model given deep copies of the same inputs. Non-trivial = history with at least one re-use, feedback, failing call or batch change after a successful Run; distinct = (model structure, action sequence).",
 		RaceInThorough: true,
 		Technique:      "runtime monitoring: deep before/after fingerprints of caller tensors and weights (hook: Model.VerifParameters), differential oracle against a freshly loaded model (the real code as its own reference, exact comparison), per-node attribution through the operator proxy",
 		Assumptions:    []string{"a freshly loaded Model given deep copies of the inputs is the reference for 'what this call returns'"},
@@ -99,7 +99,7 @@ func c02Run(c *Ctx) {
 	interesting := false
 	succeeded := false
 	for step := 0; step < steps; step++ {
-		action := r.PickStr("fresh", "same-values", "same-objects", "feedback", "batch", "fail-validation", "fail-node", "fresh")
+		action := r.PickStr("fresh", "same-values", "same-objects", "feedback", "batch", "fail-validation", "fail-node", "misshapen", "fresh")
 		feed := spec.Feed(r, 0)
 		in := gonnx.Tensors{}
 		expectFail := false
@@ -174,6 +174,22 @@ func c02Run(c *Ctx) {
 			}
 		case action == "fail-node":
 			inject = true
+		case action == "misshapen":
+			// one caller tensor of another shape: with symbolic dimensions this passes the
+			// signature check and fails (or not) inside a node; the fresh model decides
+			// (float data only: integer inputs are shape / index parameters, whose values
+			// would ask for arbitrarily large results)
+			names := make([]string, 0, len(feed))
+			for k, v := range feed {
+				if v.DT.IsFloat() {
+					names = append(names, k)
+				}
+			}
+			sort.Strings(names)
+			if len(names) > 0 {
+				victim := names[r.Intn(len(names))]
+				feed[victim] = variantOf(r, feed[victim], r.Bool())
+			}
 		default:
 			action = "fresh"
 		}
@@ -282,7 +298,7 @@ func c02Run(c *Ctx) {
 		}
 		if !spec.Heavy || step == steps-1 {
 			if fp := mon.ProtoFingerprint(m); fp != protoFp {
-				c.Violation("history:model-proto-modified", "the decoded model (node attributes, attribute tensors, initializer protos) changed during step %d (%s)%s | history %s | model %s", step, action, blame(events), hist, trunc(desc, 300))
+				c.Violation("history:model-proto-modified", "the numeric payloads of the decoded model (initializer messages, attribute tensors and float lists) changed during step %d (%s)%s | history %s | model %s", step, action, blame(events), hist, trunc(desc, 300))
 				return
 			}
 		}
